@@ -182,8 +182,8 @@ pub fn scenarios(prop: &str, tier: &str) -> Vec<Arc<dyn Scenario>> {
                 // a wide table holding a put and a delete at its two ends
                 al.extra.push(Op::Seq { ops: vec![Op::Batch { puts: vec![0], dels: vec![2] }, Op::Flush { w: Wm::Tight }] });
                 al.extra.push(Op::Seq { ops: vec![Op::Batch { puts: vec![2], dels: vec![0] }, Op::Flush { w: Wm::Tight }] });
-                al.reopen = true;
-                let bd = if quick { bs(4, 0, 0, 1, 0) } else { bs(5, 0, 0, 1, 0) };
+                al.reopen = !quick;
+                let bd = if quick { bs(4, 0, 0, 0, 0) } else { bs(5, 0, 0, 1, 0) };
                 v.push(std(&format!("{prop}-loop-k3"), TreeCfg::small(keys_abc()), al, bd, seeds_upto(1), oracle));
                 if !quick {
                     let mut af = Alphabet::default();
@@ -276,7 +276,7 @@ pub fn scenarios(prop: &str, tier: &str) -> Vec<Arc<dyn Scenario>> {
                 ar.leveled = vec![0];
                 ar.wms = vec![Wm::Tight];
                 ar.reopen = true;
-                let bd = if quick { bs(3, 2, 0, 1, 0) } else { bs(4, 3, 0, 1, 0) };
+                let bd = if quick { bs(3, 2, 0, 0, 0) } else { bs(4, 3, 0, 1, 0) };
                 v.push(std(&format!("{prop}-blob-relocating"), cr, ar, bd, vec![vec![]], oracle));
             }
         }
@@ -373,7 +373,7 @@ pub fn scenarios(prop: &str, tier: &str) -> Vec<Arc<dyn Scenario>> {
                 af.major = vec![u64::MAX];
                 af.wms = vec![Wm::Tight];
                 af.reopen = true;
-                let bd = if quick { bs(4, 1, 0, 2, 0) } else { bs(5, 2, 0, 2, 0) };
+                let bd = if quick { bs(3, 1, 0, 1, 0) } else { bs(5, 2, 0, 2, 0) };
                 v.push(std("C04-blob-flushy", TreeCfg::small(keys_ab()).with_blob(16), af.clone(), bd, vec![vec![]], OracleKind::C04));
                 let mut cr = TreeCfg::small(keys_ab()).with_blob(16);
                 cr.blob = Some(crate::driver::BlobCfg { threshold: 16, file_target: 64 << 20, staleness: 0.0, age_cutoff: 1.0 });
@@ -386,7 +386,7 @@ pub fn scenarios(prop: &str, tier: &str) -> Vec<Arc<dyn Scenario>> {
                     "C04-std-222",
                     TreeCfg::small(keys_ab()),
                     a.clone(),
-                    b(2, 2, 0, 2),
+                    bs(2, 2, 0, 1, 1),
                     seeds_upto(1),
                     OracleKind::C04,
                 ));
@@ -394,7 +394,7 @@ pub fn scenarios(prop: &str, tier: &str) -> Vec<Arc<dyn Scenario>> {
                     "C04-blob-212",
                     TreeCfg::small(keys_ab()).with_blob(16),
                     ab.clone(),
-                    b(2, 1, 0, 2),
+                    bs(2, 1, 0, 1, 1),
                     seeds_upto(1),
                     OracleKind::C04,
                 ));
